@@ -127,6 +127,10 @@ def families_for(want, tier):
         fams.append(SchedFamily(NestedSpace2(2), 'G', want, unroll=False))
         fams.append(SchedFamily(FlatSpace(2), 'Z', want, unroll=False))
         fams.append(SchedFamily(NestedSpace1(2), 'Z', want, unroll=True))
+        if 'C02' not in want:
+            # blocks with a FOLLOWED_BY / JOINED_START relation of their own
+            fams.append(SchedFamily(NestedSpace1(2, reps=(1, 2), bodies=N1_BODIES, block_rels=('FB', 'JS')), 'G', want, unroll=False))
+            fams.append(SchedFamily(NestedSpace1(3, reps=(1,), bodies=N1_BODIES[1:4], atoms=[('X', 0), ('R', 1)], block_rels=('FB', 'JS')), 'H', want, unroll=False))
         if 'C01' in want:
             # deviation-bounded: up to 6 entries, at most 2 explicit relations (deep trees, leaves at different depths)
             fams.append(SchedFamily(SparseSpace(6, 2, min_len=5, atoms=[('X', 0), ('X', 1), ('P', 0)], last_atoms=[('R', 0), ('P', 0), ('X', 0)]), 'G', want, unroll=False))
